@@ -274,8 +274,9 @@ def judge(case, out):
                 tags.append("text-ambiguous")
             else:
                 bad.append(("entry:lib-vs-cli", f"`run -O` gives {f['run1'][:160]} (text {unhex(f['rt1'])[:120]!r}), library {lib0[:160]}"))
-    # (c) sigil programs: `run` prints exactly compile_modern's result, for both flag settings (compared
-    #     as text: no reading involved); the debugger's trace on the source = the trace of that program
+    # (c) sigil programs: `run` prints compile_modern's result, for both flag settings (compared as text, and
+    #     when the texts differ as the CLVM both texts denote under one reader: `txt` = equal / same-clvm / differ);
+    #     the debugger's trace on the source = the trace of that program
     if sigil:
         for fl in "10":
             cm, rn = f["cm" + fl], f["run" + fl]
@@ -283,8 +284,13 @@ def judge(case, out):
                 if unhex(f["rt" + fl]) != unhex(cm[2:]):
                     bad.append(("entry:error-disagree", f"compile_modern(-O={fl}) refuses with {unhex(cm[2:])!r}, run prints {unhex(f['rt' + fl])[:120]!r}"))
                 continue
-            if f["txt" + fl] != "equal":
-                bad.append(("entry:cli-vs-compile-modern", f"-O={fl}: `run` prints {unhex(f['rt' + fl])[:160]!r}, which is not the printed form of what compile_modern (the debugger's compile) emitted {cm[:100]}"))
+            if f["txt" + fl] == "same-clvm":
+                # the two texts are different SPELLINGS of one CLVM value (`()` / `0` for nil ...): the SExp variant the
+                # modern compiler leaves in its result is not a function of the source (DESIGN.md section 11, C11 entry),
+                # and the property speaks of the CLVM.  Counted, never a failure.
+                tags.append("text-spelling-differs-same-clvm")
+            elif f["txt" + fl] != "equal":
+                bad.append(("entry:cli-vs-compile-modern", f"-O={fl}: `run` prints {unhex(f['rt' + fl])[:160]!r}, which neither is the printed form of what compile_modern (the debugger's compile) emitted {cm[:100]} nor reads back to the same CLVM"))
                 continue
             if cm != rn:
                 # same value, but its text read back by the classic assembler denotes other bytes:
@@ -320,10 +326,18 @@ def nondeterminism(line, bad):
     different programs for IDENTICAL calls (C05's subject)?  `r` repeats the library call and
     compile_modern 8 times in one process."""
     parts = line.split(" ")
-    rline = " ".join(["r", "8"] + parts[3:])
-    out = run_each([lib.CVH, "entry"], [rline], 600)[0]
-    f = dict(p.split("=", 1) for p in out.split(" ") if "=" in p)
-    nd = {k: len(set(v.split(","))) > 1 for k, v in f.items()}
+    # a variant that shows up in one call out of a hundred is as much a second program as one that shows up
+    # every other call: repeat more often (8, 64, 512 identical calls) until a second program is seen
+    f, nd = {}, {}
+    for reps in ("8", "64", "512"):
+        rline = " ".join(["r", reps] + parts[3:])
+        out = run_each([lib.CVH, "entry"], [rline], 600)[0]
+        f = dict(p.split("=", 1) for p in out.split(" ") if "=" in p)
+        nd = {k: len(set(v.split(","))) > 1 for k, v in f.items()}
+        shown = [((nd.get("lib") or nd.get("cm1")) if "-O=0" not in detail else nd.get("cm0"))
+                 for sig, detail in bad if sig in NONDET_SIGS]
+        if all(shown):
+            break
     res = []
     for sig, detail in bad:
         if sig in NONDET_SIGS and ((nd.get("lib") or nd.get("cm1")) if "-O=0" not in detail else nd.get("cm0")):
@@ -334,6 +348,39 @@ def nondeterminism(line, bad):
         else:
             res.append((sig, detail))
     return res
+
+
+def hx(t):
+    return t.encode().hex()
+
+
+# (text printed by `run`, text of compile_modern's result, its CLVM hex, expected verdict)
+TEXT_VERDICT_SELFTEST = [
+    ("(4 (62 0 (1 . 122)) 2)", "(4 (62 0 (1 . 122)) 2)", "ff04ffff3eff80ffff017a80ff0280", "equal"),
+    # the false alarm of 2026-09-24: nil spelled `()` by one compile and `0` by the other
+    ("(4 (62 () (1 . 122)) 2)", "(4 (62 0 (1 . 122)) 2)", "ff04ffff3eff80ffff017a80ff0280", "same-clvm"),
+    ("(4 (62 0 (1 . 122)) 2)", "(4 (62 () (1 . 122)) 2)", "ff04ffff3eff80ffff017a80ff0280", "same-clvm"),
+    ('(4 (1 . "z") 2)', "(4 (1 . 122) 2)", "ff04ffff017aff0280", "same-clvm"),
+    # really different programs, however slightly
+    ("(4 (62 1 (1 . 122)) 2)", "(4 (62 0 (1 . 122)) 2)", "ff04ffff3eff80ffff017a80ff0280", "differ"),
+    ("(4 (62 () (1 . 122)) 3)", "(4 (62 0 (1 . 122)) 2)", "ff04ffff3eff80ffff017a80ff0280", "differ"),
+    ("(4 (62 0 (1 . 122)) 2", "(4 (62 0 (1 . 122)) 2)", "ff04ffff3eff80ffff017a80ff0280", "differ"),
+    ("FAIL: something", "(4 (62 0 (1 . 122)) 2)", "ff04ffff3eff80ffff017a80ff0280", "differ"),
+    ("(4 (62 0 (1 . 122)) 2) 5", "(4 (62 0 (1 . 122)) 2)", "ff04ffff3eff80ffff017a80ff0280", "differ"),
+]
+
+
+def text_verdict_selftest(chk):
+    """the harness's `txt` verdict (equal / same-clvm / differ) on fixed texts: a verdict that
+    accepts different programs, or refuses two spellings of one, makes the end-to-end oracle unusable"""
+    lines = [f"s {hx(a)} {hx(b)} {c}" for a, b, c, _ in TEXT_VERDICT_SELFTEST]
+    outs = lib.run_impl("entry", lines)
+    for (a, b, c, want), got in zip(TEXT_VERDICT_SELFTEST, outs):
+        chk.note_case(("txt-selftest", a, b))
+        chk.count("txt-selftest:" + want)
+        if got != want:
+            chk.fail("proof", "harness-selftest:text-verdict", {"run_text": a, "compile_modern_text": b},
+                     f"text verdict {got!r}, expected {want!r}")
 
 
 def end_to_end(chk, cases):
@@ -356,6 +403,12 @@ def end_to_end(chk, cases):
             bad, tags = judge(c, o)
             for t in tags:
                 chk.count("e2e:" + t)
+            if "text-spelling-differs-same-clvm" in tags:
+                ex = chk.cov.setdefault("text_spelling_differs_same_clvm_examples", [])
+                if len(ex) < 3:
+                    f = dict(p.split("=", 1) for p in o.split(" ") if "=" in p)
+                    ex.append({"source": (c.get("source") or c.get("path"))[:300],
+                               "run_text": [unhex(f["rt1"])[:200], unhex(f["rt0"])[:200]], "txt": [f["txt1"], f["txt0"]]})
             if "text-ambiguous-without-O(C09)" in tags or "text-lossy-without-O(C09)" in tags:
                 ex = chk.cov.setdefault("cli_text_ambiguous_without_O_examples", [])
                 if len(ex) < 3:
@@ -442,6 +495,8 @@ def run(chk):
     for o in dio:
         chk.count("detect:" + ("classic" if o.startswith("-") else "sigil"))
 
+    text_verdict_selftest(chk)
+
     # 4. end to end; widened when an obligation or the tie is broken (search for a failing input)
     broken = bool(chk.failures)
     if quick and not broken:
@@ -461,6 +516,7 @@ def run(chk):
         "argument parsing of `run` / `cldb` (flags -> parsed_args keys) is exercised only end to end",
         "cldb's compiled program is observed through its execution trace compared with the trace of the program compile_modern "
         "emitted (operator sequence, row count and ending always; argument / value skeletons when the debugger's printing "
-        "allows it), and in-process through compile_modern (full program identity, exact text equality with `run`)",
+        "allows it), and in-process through compile_modern (full program identity; `run`'s text equal to the printed result, or "
+        "both texts reading back to one CLVM when the compiler left a differently spelled but equal atom in its result)",
     ]
     chk.assumptions.append("every entry point is started with the fresh-name counter at 0 (history dependence is C05)")
